@@ -27,6 +27,7 @@ import (
 	"sync"
 	"time"
 
+	"github.com/jmeaster30/vore/libvore"
 	"github.com/jmeaster30/vore/libvore/ast"
 	"github.com/jmeaster30/vore/libvore/bytecode"
 	"github.com/jmeaster30/vore/libvore/engine"
@@ -130,9 +131,65 @@ func compileSrc(src string, r Result) *compiled {
 	return &compiled{a, bc}
 }
 
+// the library's public entry points on the same source and texts: libvore.Compile must accept/reject as the pipeline above does (same error class)
+// and (*Vore).Run must return what engine.Run returned for the pipeline's bytecode.  The first difference is recorded under "api_diff".
+func apiPass(src string, texts []string, direct []string, r Result) {
+	v, err := libvore.Compile(src)
+	_, accepted := r["bc"]
+	if err != nil || v == nil {
+		if accepted {
+			r["api_diff"] = fmt.Sprintf("libvore.Compile rejects (%v) what ParseReader+GenerateBytecode accept", err)
+		} else if err != nil && errClass(err) != r["errclass"] {
+			r["api_diff"] = fmt.Sprintf("libvore.Compile error class %s, pipeline %v", errClass(err), r["errclass"])
+		}
+		return
+	}
+	if !accepted {
+		r["api_diff"] = "libvore.Compile accepts what ParseReader+GenerateBytecode reject"
+		return
+	}
+	for i, t := range texts {
+		if i >= len(direct) {
+			break
+		}
+		if got := matchesSexp(v.Run(t)); got != direct[i] {
+			r["api_diff"] = fmt.Sprintf("text %d: (*Vore).Run gives %s, engine.Run on the pipeline's bytecode %s", i, got, direct[i])
+			r["api_text"] = i
+			return
+		}
+	}
+}
+
 func opE2E(c Case, r Result) {
 	src := bytesArg(c, "src")
 	cp := compileSrc(src, r)
+	opE2EBody(c, r, cp)
+	if noapi, _ := c["noapi"].(bool); noapi {
+		return
+	}
+	// reached only when the pipeline returned normally (a panic is the case's outcome already)
+	texts, direct := []string{}, []string{}
+	if cp != nil {
+		if ts, ok := c["texts_hex"]; ok {
+			for _, t := range ts.([]any) {
+				b, _ := hex.DecodeString(t.(string))
+				texts = append(texts, string(b))
+			}
+		} else if _, ok := c["text_hex"]; ok {
+			texts = append(texts, bytesArg(c, "text"))
+		} else if _, ok := c["text"]; ok {
+			texts = append(texts, bytesArg(c, "text"))
+		}
+		if l, ok := r["matches_list"].([]string); ok {
+			direct = l
+		} else if m, ok := r["matches"].(string); ok {
+			direct = []string{m}
+		}
+	}
+	apiPass(src, texts, direct, r)
+}
+
+func opE2EBody(c Case, r Result, cp *compiled) {
 	if cp == nil {
 		return
 	}
